@@ -101,10 +101,21 @@ FloorV(a) == Strict1(a, LAMBDA x : I(FloorQ(Nu(x), De(x))))
 RoundTo(x, k, f(_, _)) ==
     IF k >= 0 THEN R(f(Nu(x) * Pow10(k), De(x)), Pow10(k))
     ELSE R(f(Nu(x), De(x) * Pow10(-k)) * Pow10(-k), 1)
+\* A Number that is not a dyadic rational (1.1, 0.3) has no exact binary representation: when it lies EXACTLY on a rounding
+\* boundary of the requested precision (trunc(1.1, 1), round(0.125 ... is dyadic and fine)) the result depends on which side the
+\* stored approximation falls - not determined here (READINGS.md 26)
+RECURSIVE IsPow2(_)
+IsPow2(n) == n = 1 \/ (n % 2 = 0 /\ IsPow2(n \div 2))
+OnBoundary(x, k, half) ==
+    LET kk == IF k >= 0 THEN k ELSE 0
+        num == Nu(x) * Pow10(kk) * (IF half THEN 2 ELSE 1)
+    IN  x[1] = 2 /\ ~IsPow2(De(x)) /\ k >= 0 /\ num % De(x) = 0 /\ (half => (num \div De(x)) % 2 # 0)
 RoundV(a, k) == IF IsErr(a) THEN a ELSE IF IsNull(a) THEN Null
-                ELSE IF IsNull(k) THEN I(RoundQ(Nu(a), De(a))) ELSE RoundTo(a, k[2], RoundQ)
+                ELSE IF IsNull(k) THEN I(RoundQ(Nu(a), De(a)))
+                ELSE IF OnBoundary(a, k[2], TRUE) THEN Undet ELSE RoundTo(a, k[2], RoundQ)
 TruncV(a, k) == IF IsErr(a) THEN a ELSE IF IsNull(a) THEN Null
-                ELSE IF IsNull(k) THEN I(TruncQ(Nu(a), De(a))) ELSE RoundTo(a, k[2], TruncQ)
+                ELSE IF IsNull(k) THEN I(TruncQ(Nu(a), De(a)))
+                ELSE IF OnBoundary(a, k[2], FALSE) THEN Undet ELSE RoundTo(a, k[2], TruncQ)
 \* mod: generators keep both operands' signs equal-or-zero cases documented in READINGS.md;
 \* truncated remainder (sign of the dividend), mod(x, 0) = x
 ModV(a, b) == Strict2(a, b, LAMBDA x, y :
